@@ -12,7 +12,7 @@ import NdnGen.C16
 #print axioms Ndn.C16.addYears_spec
 #print axioms Ndn.C16.toUtc_spec
 #print axioms Ndn.C16.fmtInstant_inj
-#print axioms Ndn.C16.fmt_domain
+#print axioms Ndn.C16.fmtInstant_form
 #print axioms Ndn.C16.derive_instants
 #print axioms Ndn.C16.derive_zone_independent
 #print axioms Ndn.C16.validity_encodes_requested_instants
